@@ -1,5 +1,5 @@
 (* C04 — lemmas *)
-From V Require Import Common.NumFacts C03.Model C03.Proofs C04.Model.
+From V Require Import Common.NumFacts C03.Model C03.Proofs C04.KBase C04.Model C04.Gen_kernels.
 Open Scope Q_scope.
 
 Ltac brk := match goal with
@@ -590,142 +590,120 @@ Proof.
   rewrite IH by lia. lra.
 Qed.
 
+(* ------------------------------------------------------------------ the kernels generated from the source are the model *)
+Lemma generated_kernels_agree :
+  g_compute_phase_fraction_2N = rr2v /\ g_xy = xyn /\ g_xVlogK_iter_2n = iter2n /\ g_xVlogK_iter = itern.
+Proof. repeat split; reflexivity. Qed.
+
 (* ------------------------------------------------------------------ exact fixed points of the iteration maps *)
-Definition w2_eq (a b : w2) : Prop :=
-  wx1 a == wx1 b /\ wx2 a == wx2 b /\ wV a == wV b /\ wl1 a == wl1 b /\ wl2 a == wl2 b.
+Definition wn_eq (a b : wn) : Prop := veq (nx a) (nx b) /\ nV a == nV b /\ veq (nl a) (nl b).
 
 Lemma clipK_ge k : c_1e16 <= clipK k.
 Proof. unfold clipK. destruct (qltb k c_1e16) eqn:E; [lra|apply qltb_false in E; exact E]. Qed.
-
-Lemma orb_zero_false a b : qzerob a || qzerob b = false -> ~ a == 0 /\ ~ b == 0.
-Proof. intros H. apply orb_false_iff in H. destruct H as (A & B). split; apply qzerob_false; assumption. Qed.
-
-Lemma fix_iso_2n_lemma E L G Ph z1 z2 w w' :
-  (forall a b, a == b -> E a == E b) ->
-  (forall k, c_1e16 <= k -> E (L k) == k) ->
-  iter2n E L G Ph z1 z2 w = Ok w' -> w2_eq w' w ->
-  exists x1 x2 y1 y2 K1 K2 V,
-    xy2 (wx1 w) (wx2 w) (E (wl1 w)) (E (wl2 w)) = Ok ((x1, x2), (y1, y2)) /\
-    K1 = clipK (fst (G x1 x2) / fst (Ph y1 y2)) /\ K2 = clipK (snd (G x1 x2) / snd (Ph y1 y2)) /\
-    E (wl1 w) == K1 /\ E (wl2 w) == K2 /\
-    rr2 z1 z2 K1 K2 = Ok V /\ wV w == V /\ rr [z1; z2] [K1; K2] V == 0 /\
-    wx1 w == z1 / (1 + V * (K1 - 1)) /\ wx2 w == z2 / (1 + V * (K2 - 1)) /\
-    (z1 + z2 == 1 -> wx1 w + wx2 w == 1).
-Proof.
-  intros EP EL H (Q1 & Q2 & Q3 & Q4 & Q5). unfold iter2n in H.
-  destruct (xy2 (wx1 w) (wx2 w) (E (wl1 w)) (E (wl2 w))) as [[[x1 x2] [y1 y2]]|e] eqn:EX; [|discriminate].
-  cbn [bind] in H.
-  destruct (G x1 x2) as [g1 g2] eqn:EG. destruct (Ph y1 y2) as [p1 p2] eqn:EP'.
-  destruct (qzerob p1 || qzerob p2) eqn:Z1; [discriminate|].
-  set (K1 := clipK (g1 / p1)) in *. set (K2 := clipK (g2 / p2)) in *.
-  destruct (rr2 z1 z2 K1 K2) as [V|e] eqn:ER; [|discriminate]. cbn [bind] in H.
-  destruct (qzerob (1 + V * (K1 - 1)) || qzerob (1 + V * (K2 - 1))) eqn:Z2; [discriminate|].
-  apply orb_zero_false in Z2. destruct Z2 as (D1 & D2).
-  inversion H; subst w'; clear H. cbn [wx1 wx2 wV wl1 wl2] in *.
-  exists x1, x2, y1, y2, K1, K2, V.
-  assert (R : rr [z1; z2] [K1; K2] V == 0) by (apply rr2_solves_lemma; assumption).
-  split; [reflexivity|].
-  split; [unfold K1; rewrite EG, EP'; reflexivity|].
-  split; [unfold K2; rewrite EG, EP'; reflexivity|].
-  split; [apply (Qeq_trans _ (E (L K1))); [symmetry; apply EP; exact Q4|apply EL; apply clipK_ge]|].
-  split; [apply (Qeq_trans _ (E (L K2))); [symmetry; apply EP; exact Q5|apply EL; apply clipK_ge]|].
-  split; [exact ER|]. split; [symmetry; exact Q3|]. split; [exact R|].
-  split; [symmetry; exact Q1|]. split; [symmetry; exact Q2|].
-  - intros S. rewrite <- Q1, <- Q2.
-    unfold rr, qsum in R. cbn [map2 fold_right] in R. unfold rr_term in R.
-    assert (A : z1 / (1 + V * (K1 - 1)) == z1 - V * (z1 * (K1 - 1) / (1 + V * (K1 - 1)))) by (field; exact D1).
-    assert (B : z2 / (1 + V * (K2 - 1)) == z2 - V * (z2 * (K2 - 1) / (1 + V * (K2 - 1)))) by (field; exact D2).
-    rewrite A, B.
-    assert (C : V * (z1 * (K1 - 1) / (1 + V * (K1 - 1))) + V * (z2 * (K2 - 1) / (1 + V * (K2 - 1))) ==
-                V * (z1 * (K1 - 1) / (1 + V * (K1 - 1)) + (z2 * (K2 - 1) / (1 + V * (K2 - 1)) + 0))) by ring.
-    rewrite R in C. lra.
-Qed.
 
 Lemma nthq_map_lt (f : Q -> Q) l i : (i < length l)%nat -> nthq (map f l) i = f (nthq l i).
 Proof.
   unfold nthq. revert i; induction l as [|x l IH]; intros [|i] H; simpl in *; try lia; auto. apply IH. lia.
 Qed.
 
-Definition wn_eq (a b : wn) : Prop := veq (nx a) (nx b) /\ nV a == nV b /\ veq (nl a) (nl b).
+Lemma guard_v_ok {A} d (k : res A) r : guard_v d k = Ok r -> existsb qzerob d = false /\ k = Ok r.
+Proof. unfold guard_v. destruct (existsb qzerob d); [discriminate|auto]. Qed.
+Lemma guard_s_ok {A} d (k : res A) r : guard_s d k = Ok r -> ~ d == 0 /\ k = Ok r.
+Proof. unfold guard_s. destruct (qzerob d) eqn:E; [discriminate|]. apply qzerob_false in E. auto. Qed.
 
-Lemma fix_iso_n_lemma E L G Ph rrsolve z w w' :
-  (forall a b, a == b -> E a == E b) ->
-  (forall k, c_1e16 <= k -> E (L k) == k) ->
-  itern E L G Ph rrsolve z w = Ok w' -> wn_eq w' w ->
+Lemma existsb_zero_false d i : existsb qzerob d = false -> (i < length d)%nat -> ~ nthq d i == 0.
+Proof.
+  intros H Hi Z.
+  assert (F : existsb qzerob d = true) by (apply existsb_exists; exists (nthq d i); split; [apply nth_In; exact Hi|apply qzerob_true; exact Z]).
+  congruence.
+Qed.
+
+Lemma new_Ks_ge fg fp pcf x y T P i : (i < length (new_Ks fg fp pcf x y T P))%nat ->
+  c_1e16 <= nthq (new_Ks fg fp pcf x y T P) i.
+Proof.
+  unfold new_Ks, mask_lt. intros Hi. rewrite map_length in Hi. rewrite nthq_map_lt by exact Hi.
+  apply (clipK_ge (nthq (map2 Qdiv (vmul pcf (fg x T)) (fp y T P)) i)).
+Qed.
+
+(* the part common to both maps: at a fixed point  exp(lnK) = K_new  componentwise *)
+Lemma fix_K E L (Ks : vec) (lw : vec) :
+  (forall a b, a == b -> E a == E b) -> (forall k, c_1e16 <= k -> E (L k) == k) ->
+  (forall i, (i < length Ks)%nat -> c_1e16 <= nthq Ks i) ->
+  veq (map L Ks) lw -> veq (map E lw) Ks.
+Proof.
+  intros EP EL GE (L3 & P3). rewrite map_length in L3. split; [rewrite map_length; congruence|].
+  intros i. destruct (Nat.lt_ge_cases i (length Ks)) as [Hi|Hi].
+  - rewrite nthq_map_lt by lia. specialize (P3 i). rewrite nthq_map_lt in P3 by exact Hi.
+    apply (Qeq_trans _ (E (L (nthq Ks i)))); [symmetry; apply EP; exact P3|apply EL; apply GE; exact Hi].
+  - rewrite !nthq_over; [reflexivity|exact Hi|rewrite map_length; lia].
+Qed.
+
+Lemma fix_iso_n_lemma E L fg fp rrsolve w pcf T P z zl zh w' :
+  (forall a b, a == b -> E a == E b) -> (forall k, c_1e16 <= k -> E (L k) == k) ->
+  itern E L fg fp rrsolve w pcf T P z zl zh = Ok w' -> wn_eq w' w ->
   exists x y Ks V,
     xyn (nx w) (map E (nl w)) = Ok (x, y) /\
-    Ks = map clipK (map2 Qdiv (G x) (Ph y)) /\
+    Ks = new_Ks fg fp pcf x y T P /\
     veq (map E (nl w)) Ks /\
-    V = rrsolve z Ks (if qltb (nV w) 0 then 0 else if qltb 1 (nV w) then 1 else nV w) /\ nV w == V /\
-    veq (nx w) (map2 (fun zi k => zi / (1 + V * (k - 1))) z Ks) /\
-    (forall i, (i < length Ks)%nat -> ~ 1 + V * (nthq Ks i - 1) == 0).
+    V = rrsolve z Ks (clamp01 (nV w)) zl zh /\ nV w == V /\
+    veq (nx w) (map2 Qdiv z (rr_den V Ks)) /\
+    (forall i, (i < length Ks)%nat -> ~ nthq (rr_den V Ks) i == 0).
 Proof.
-  intros EP EL H (Q1 & Q2 & Q3). unfold itern in H.
-  destruct (xyn (nx w) (map E (nl w))) as [[x y]|e] eqn:EX; [|discriminate]. cbn [bind] in H.
-  destruct (existsb qzerob (Ph y)); [discriminate|].
-  set (Ks := map clipK (map2 Qdiv (G x) (Ph y))) in *.
-  set (V := rrsolve z Ks (if qltb (nV w) 0 then 0 else if qltb 1 (nV w) then 1 else nV w)) in *.
-  destruct (existsb (fun k => qzerob (1 + V * (k - 1))) Ks) eqn:Z; [discriminate|].
+  intros EP EL H (Q1 & Q2 & Q3). unfold itern in H. cbv zeta in H.
+  destruct (xyn (nx w) (map E (nl w))) as [[x y]|e] eqn:EX; [|discriminate]. cbn [bind fst snd] in H.
+  apply guard_v_ok in H. destruct H as (_ & H).
+  apply guard_v_ok in H. destruct H as (Z & H).
   inversion H; subst w'; clear H. cbn [nx nV nl] in *.
+  set (Ks := new_Ks fg fp pcf x y T P) in *.
+  set (V := rrsolve z Ks (clamp01 (nV w)) zl zh) in *.
   exists x, y, Ks, V. repeat split; auto.
-  - destruct Q3 as (L3 & _). rewrite !map_length in *. congruence.
-  - intros i. destruct Q3 as (L3 & P3). rewrite map_length in L3.
-    destruct (Nat.lt_ge_cases i (length Ks)) as [Hi|Hi].
-    + rewrite nthq_map_lt by lia. specialize (P3 i). rewrite nthq_map_lt in P3 by exact Hi.
-      apply (Qeq_trans _ (E (L (nthq Ks i)))); [symmetry; apply EP; exact P3|apply EL].
-      unfold Ks. rewrite nthq_map_lt by (unfold Ks in Hi; rewrite map_length in Hi; exact Hi). apply clipK_ge.
-    + rewrite !nthq_over; [reflexivity|exact Hi|rewrite map_length; lia].
+  - destruct (fix_K E L Ks (nl w) EP EL (new_Ks_ge fg fp pcf x y T P) Q3) as (A & _). exact A.
+  - destruct (fix_K E L Ks (nl w) EP EL (new_Ks_ge fg fp pcf x y T P) Q3) as (_ & B). exact B.
   - symmetry. exact Q2.
   - destruct Q1 as (A & _). symmetry. exact A.
   - intros i. destruct Q1 as (_ & B). symmetry. apply B.
-  - intros i Hi D.
-    assert (F : existsb (fun k => qzerob (1 + V * (k - 1))) Ks = true).
-    { apply existsb_exists. exists (nthq Ks i). split; [apply nth_In; exact Hi|]. apply qzerob_true. exact D. }
-    congruence.
-Qed.
-(* ------------------------------------------------------------------ homogeneity: the pieces that make the flash scale *)
-Lemma qltb_scale k a b : 0 < k -> qltb (k * a) (k * b) = qltb a b.
-Proof.
-  intros K. destruct (qltb a b) eqn:E.
-  - apply qltb_true in E. apply qltb_true. nra.
-  - apply qltb_false in E. apply qltb_false. nra.
+  - intros i Hi. apply existsb_zero_false; [exact Z|]. unfold rr_den. rewrite !map_length. exact Hi.
 Qed.
 
-Lemma clip1_scale k v m : 0 < k -> clip1 (k * v) (k * m) == k * clip1 v m.
+Lemma fix_iso_2n_lemma E L fg fp w pcf T P z w' :
+  (forall a b, a == b -> E a == E b) -> (forall k, c_1e16 <= k -> E (L k) == k) ->
+  iter2n E L fg fp w pcf T P z = Ok w' -> wn_eq w' w ->
+  exists x y Ks V,
+    xyn (nx w) (map E (nl w)) = Ok (x, y) /\
+    Ks = new_Ks fg fp pcf x y T P /\
+    veq (map E (nl w)) Ks /\
+    rr2v z Ks = Ok V /\ nV w == V /\ rr z Ks V == 0 /\
+    veq (nx w) (map2 Qdiv z (rr_den V Ks)) /\
+    (qsum z == 1 -> qsum (nx w) == 1).
 Proof.
-  intros K. unfold clip1. rewrite qltb_scale by exact K.
-  destruct (qltb m v).
-  - assert (E : qltb (k * m) 0 = qltb m 0).
-    { destruct (qltb m 0) eqn:E.
-      - apply qltb_true in E. apply qltb_true. nra.
-      - apply qltb_false in E. apply qltb_false. nra. }
-    rewrite E. destruct (qltb m 0); ring.
-  - assert (E : qltb (k * v) 0 = qltb v 0).
-    { destruct (qltb v 0) eqn:E.
-      - apply qltb_true in E. apply qltb_true. nra.
-      - apply qltb_false in E. apply qltb_false. nra. }
-    rewrite E. destruct (qltb v 0); ring.
-Qed.
-
-Lemma rr2_scale k z1 z2 K1 K2 V : ~ k == 0 -> rr2 z1 z2 K1 K2 = Ok V ->
-  exists V', rr2 (k * z1) (k * z2) K1 K2 = Ok V' /\ V' == V.
-Proof.
-  intros K H. unfold rr2 in *.
-  destruct (qzerob (rr2_den z1 z2 K1 K2)) eqn:E; [discriminate|]. apply qzerob_false in E.
-  injection H as HV.
-  assert (D : rr2_den (k * z1) (k * z2) K1 K2 == k * rr2_den z1 z2 K1 K2) by (unfold rr2_den; ring).
-  assert (N : rr2_num (k * z1) (k * z2) K1 K2 == k * rr2_num z1 z2 K1 K2) by (unfold rr2_num; ring).
-  assert (ND : ~ rr2_den (k * z1) (k * z2) K1 K2 == 0).
-  { rewrite D. intros Z. apply Qmult_integral in Z. tauto. }
-  assert (E' : qzerob (rr2_den (k * z1) (k * z2) K1 K2) = false) by (apply qzerob_false; exact ND).
-  rewrite E'. eexists. split; [reflexivity|].
-  rewrite <- HV. rewrite D, N. field. split; assumption.
-Qed.
-
-Lemma rr_scale k zs : forall Ks V, rr (vscale k zs) Ks V == k * rr zs Ks V.
-Proof.
-  unfold rr, qsum. induction zs as [|z zs IH]; intros [|K Ks] V; cbn [vscale map map2 fold_right]; try ring.
-  rewrite IH. unfold rr_term. unfold Qdiv. ring.
+  intros EP EL H (Q1 & Q2 & Q3). unfold iter2n in H. cbv zeta in H.
+  destruct (xyn (nx w) (map E (nl w))) as [[x y]|e] eqn:EX; [|discriminate]. cbn [bind fst snd] in H.
+  apply guard_v_ok in H. destruct H as (_ & H).
+  set (Ks := new_Ks fg fp pcf x y T P) in *.
+  destruct (rr2v z Ks) as [V|e] eqn:ER; [|discriminate]. cbn [bind] in H.
+  apply guard_v_ok in H. destruct H as (Z & H).
+  inversion H; subst w'; clear H. cbn [nx nV nl] in *.
+  exists x, y, Ks, V.
+  pose proof (fix_K E L Ks (nl w) EP EL (new_Ks_ge fg fp pcf x y T P) Q3) as FK.
+  (* z and Ks have two entries *)
+  unfold rr2v, unpack2 in ER.
+  destruct z as [|z1 [|z2 [|? ?]]]; try discriminate.
+  destruct Ks as [|K1 [|K2 [|? ?]]] eqn:EK; try discriminate.
+  assert (D1 : ~ 1 + V * (K1 - 1) == 0) by (apply (existsb_zero_false _ 0%nat Z); simpl; lia).
+  assert (D2 : ~ 1 + V * (K2 - 1) == 0) by (apply (existsb_zero_false _ 1%nat Z); simpl; lia).
+  assert (R : rr [z1; z2] [K1; K2] V == 0) by (apply rr2_solves_lemma; assumption).
+  split; [reflexivity|]. split; [symmetry; exact EK|]. split; [exact FK|]. split; [exact ER|].
+  split; [symmetry; exact Q2|]. split; [exact R|].
+  split; [destruct Q1 as (A & B); split; [symmetry; exact A|intros i; symmetry; apply B]|].
+  intros S. unfold qsum in S. cbn [fold_right] in S.
+  rewrite <- (qsum_veq _ _ Q1). unfold rr_den. cbn [map map2 qsum fold_right].
+  unfold rr, qsum in R. cbn [map2 fold_right] in R. unfold rr_term in R.
+  assert (A : z1 / (1 + V * (K1 - 1)) == z1 - V * (z1 * (K1 - 1) / (1 + V * (K1 - 1)))) by (field; exact D1).
+  assert (B : z2 / (1 + V * (K2 - 1)) == z2 - V * (z2 * (K2 - 1) / (1 + V * (K2 - 1)))) by (field; exact D2).
+  unfold qsum. cbn [fold_right]. rewrite A, B.
+  assert (C : V * (z1 * (K1 - 1) / (1 + V * (K1 - 1))) + V * (z2 * (K2 - 1) / (1 + V * (K2 - 1))) ==
+              V * (z1 * (K1 - 1) / (1 + V * (K1 - 1)) + (z2 * (K2 - 1) / (1 + V * (K2 - 1)) + 0))) by ring.
+  rewrite R in C. lra.
 Qed.
 
 (* ------------------------------------------------------------------ the memoised equilibrium objects of VLE._setup *)
@@ -780,3 +758,76 @@ Lemma setup_gamma_lemma ks cs g p f i a :
   fst (C08.Model.cache_new eq_build (snd (C08.Model.cache_run eq_build ([], 0%nat) ks)) (cs, g, p, f)) = Ok (i, a) ->
   a = (g, p, f).
 Proof. intros H. apply cache_new_coherent in H. cbn [eq_build] in H. inversion H. reflexivity. Qed.
+
+(* ------------------------------------------------------------------ homogeneity: the pieces that make the flash scale *)
+Lemma qltb_scale k a b : 0 < k -> qltb (k * a) (k * b) = qltb a b.
+Proof.
+  intros K. destruct (qltb a b) eqn:E.
+  - apply qltb_true in E. apply qltb_true. nra.
+  - apply qltb_false in E. apply qltb_false. nra.
+Qed.
+
+Lemma clip1_scale k v m : 0 < k -> clip1 (k * v) (k * m) == k * clip1 v m.
+Proof.
+  intros K. unfold clip1. rewrite qltb_scale by exact K.
+  destruct (qltb m v).
+  - assert (E : qltb (k * m) 0 = qltb m 0).
+    { destruct (qltb m 0) eqn:E.
+      - apply qltb_true in E. apply qltb_true. nra.
+      - apply qltb_false in E. apply qltb_false. nra. }
+    rewrite E. destruct (qltb m 0); ring.
+  - assert (E : qltb (k * v) 0 = qltb v 0).
+    { destruct (qltb v 0) eqn:E.
+      - apply qltb_true in E. apply qltb_true. nra.
+      - apply qltb_false in E. apply qltb_false. nra. }
+    rewrite E. destruct (qltb v 0); ring.
+Qed.
+
+Lemma rr2_scale k z1 z2 K1 K2 V : ~ k == 0 -> rr2 z1 z2 K1 K2 = Ok V ->
+  exists V', rr2 (k * z1) (k * z2) K1 K2 = Ok V' /\ V' == V.
+Proof.
+  intros K H. unfold rr2 in *.
+  destruct (qzerob (rr2_den z1 z2 K1 K2)) eqn:E; [discriminate|]. apply qzerob_false in E.
+  injection H as HV.
+  assert (D : rr2_den (k * z1) (k * z2) K1 K2 == k * rr2_den z1 z2 K1 K2) by (unfold rr2_den; ring).
+  assert (N : rr2_num (k * z1) (k * z2) K1 K2 == k * rr2_num z1 z2 K1 K2) by (unfold rr2_num; ring).
+  assert (ND : ~ rr2_den (k * z1) (k * z2) K1 K2 == 0).
+  { rewrite D. intros Z. apply Qmult_integral in Z. tauto. }
+  assert (E' : qzerob (rr2_den (k * z1) (k * z2) K1 K2) = false) by (apply qzerob_false; exact ND).
+  rewrite E'. eexists. split; [reflexivity|].
+  rewrite <- HV. rewrite D, N. field. split; assumption.
+Qed.
+
+Lemma rr_scale k zs : forall Ks V, rr (vscale k zs) Ks V == k * rr zs Ks V.
+Proof.
+  unfold rr, qsum. induction zs as [|z zs IH]; intros [|K Ks] V; cbn [vscale map map2 fold_right]; try ring.
+  rewrite IH. unfold rr_term. unfold Qdiv. ring.
+Qed.
+
+(* ------------------------------------------------------------------ preconditions made explicit *)
+(* P,H on a stream without any volatile chemical: _setup raises NoEquilibrium, __call__ stores P and returns; no oracle
+   is consulted, T and the flows (up to the relocation of phase-locked chemicals) stay: the specified H is NOT applied *)
+Lemma PH_no_volatile_lemma cf orc P H st s : setup cf st = SNoEq s ->
+  vle cf orc (SpPH P H) st = VOk (with_P s P) /\ sT (with_P s P) = sT st.
+Proof.
+  intros E. unfold vle, vle_call, set_PH. cbn [ms]. rewrite E. cbn [catch_noeq ms mset]. split; [reflexivity|].
+  destruct (setup_noeq cf st s E) as [->| ->]; reflexivity.
+Qed.
+
+(* P,V / T,V: when the bracketing solver returns its LAST evaluation point (flexsolve away from a "lucky guess" on a bound),
+   the flows written are those evaluated AT the returned T (P) *)
+Lemma PV_flows_at_returned_point_lemma orc c isT V0 m m' pts :
+  let V := adj_V c V0 in
+  let k := mk m in
+  let Vb := qsum (clipv (o_v orc (k + 2)%nat) (molv c)) / Fvle c in
+  let Vd := qsum (clipv (o_v orc (k + 3)%nat) (molv c)) / Fvle c in
+  ~ V == 1 -> ~ V == 0 -> Vb <= V -> V <= Vd ->
+  fst (o_iq orc (k + 4)%nat) = pts -> pts <> [] -> snd (o_iq orc (k + 4)%nat) = last pts 0 ->
+  set_XV_multi orc c isT V0 m = VOk m' ->
+  ms m' = set_flows c (clipv (o_v orc (k + 4 + length pts)%nat) (molv c)) (set_other isT (ms m) (last pts 0)).
+Proof.
+  intros V k Vb Vd H1 H0 HB HD EP NE EX H.
+  destruct (PV_flows_lemma orc c isT V0 m m' H1 H0 HB HD H) as (A & _).
+  rewrite A. fold k. rewrite EX. unfold xv_last. fold k. rewrite EP.
+  destruct pts as [|p t]; [contradiction|]. reflexivity.
+Qed.
